@@ -665,6 +665,13 @@ func (c *Cluster) syncOne() bool {
 					}
 					b = m.BlockAt(n.Height() + 1)
 				}
+				if !c.Cfg.K.Sync && c.chance(c.Cfg.K.PDelayReset) {
+					// the ledger has moved on but the application has not told the library yet: until Reset the
+					// instance keeps working on its old height while the callbacks already answer for the new one
+					n.PendingReset = true
+					c.Stats["resets-delayed-after-ledger-sync"]++
+					return true
+				}
 				c.doReset(n)
 				return true
 			}
